@@ -201,7 +201,10 @@ def run_sequence(env, sink, cash, cfg, seq):
                        tuple(sorted((str(c), float(v)) for c, v in e.context_pre.nr_contracts.items())),
                        tuple(sorted((str(c), float(v)) for c, v in e.context_post.nr_contracts.items())),
                        tuple(sorted((str(c), float(v)) for c, v in e.context_post.weights.items())),
-                       tuple((str(t.contract), float(t.quantity), float(t.acq_price), float(t.cost_of_commissions)) for t in e.trades)))
+                       tuple((str(t.contract), float(t.quantity), float(t.acq_price), float(t.cost_of_commissions)) for t in e.trades),
+                       tuple(sorted((str(c), float(v)) for c, v in e.context_pre.margins.items() if v != 0)),
+                       tuple(sorted((str(c), float(v)) for c, v in e.context_post.margins.items() if v != 0)),
+                       tuple(sorted((str(c), float(v)) for c, v in e.context_pre.values.items()))))
         for t in e.trades:
             if t.contract.static_hashing() is not t.contract or len(t.contract.underlyings) != 1:
                 msgs.append("entry %d records a trade under the composite contract %r instead of the traded contract" % (k, t.contract))
@@ -249,7 +252,10 @@ def run_sequence(env, sink, cash, cfg, seq):
                 tuple(sorted((str(c), float(v)) for c, v in e.context_pre.nr_contracts.items())),
                 tuple(sorted((str(c), float(v)) for c, v in e.context_post.nr_contracts.items())),
                 tuple(sorted((str(c), float(v)) for c, v in e.context_post.weights.items())),
-                tuple((str(t.contract), float(t.quantity), float(t.acq_price), float(t.cost_of_commissions)) for t in e.trades))
+                tuple((str(t.contract), float(t.quantity), float(t.acq_price), float(t.cost_of_commissions)) for t in e.trades),
+                tuple(sorted((str(c), float(v)) for c, v in e.context_pre.margins.items() if v != 0)),
+                tuple(sorted((str(c), float(v)) for c, v in e.context_post.margins.items() if v != 0)),
+                tuple(sorted((str(c), float(v)) for c, v in e.context_pre.values.items())))
         if now_ != fz_:
             diff = [i for i, (a, b) in enumerate(zip(now_, fz_)) if a != b]
             msgs.append("track-record entry %d changed after it was recorded (fields %s): %r -> %r" % (j, diff, [fz_[i] for i in diff][:1], [now_[i] for i in diff][:1]))
